@@ -458,3 +458,21 @@ package bgp
 //@ func NewBGPNotificationMessage
 //@   modifies nothing
 //@   ensures result != nil && fresh(result)
+
+// attribute constructors used by the policy actions: allocate, never write caller-visible memory
+//@ props C10
+//@ func NewPathAttributeCommunities
+//@   modifies nothing
+//@   ensures result != nil && fresh(result)
+//@ func NewPathAttributeLargeCommunities
+//@   modifies nothing
+//@   ensures result != nil && fresh(result)
+//@ func NewPathAttributeExtendedCommunities
+//@   modifies nothing
+//@   ensures result != nil && fresh(result)
+//@ func NewPathAttributeIP6ExtendedCommunities
+//@   modifies nothing
+//@   ensures result != nil && fresh(result)
+//@ func getPathAttrFlags
+//@   pure
+//@   modifies nothing
